@@ -81,8 +81,10 @@ theorem viol_recall_mem (v : Nat) (vs : List Nat) (hv : v ∈ vs) (k : Nat) (t :
   rw [viol_append, viol_reads]
   simp [hv]
 
-structure SimSt (R τ : Nat → Bool) (a b : RState) : Prop where
-  t : a.t = b.t
+variable {W : Type}
+
+structure SimSt (R τ : Nat → Bool) (a b : RState W) : Prop where
+  w : a.w = b.w
   log : a.log = b.log
   agree : Agree R τ a.store b.store
 
@@ -99,7 +101,7 @@ theorem agree_susp {R τ : Nat → Bool} {s1 s2 : Store} (ha : Agree R τ s1 s2)
     simp only [hk, ↓reduceIte, resetStore, hv]
     exact ha v (Or.inl hv)
 
-theorem evalEx_lockstep (R : Nat → Bool) (cfg : Cfg) (e : Ex) (τ : Nat → Bool) (a b : RState)
+theorem evalEx_lockstep (R : Nat → Bool) (cfg : Cfg W) (e : Ex) (τ : Nat → Bool) (a b : RState W)
     (hs : SimSt R τ a b) (hn : NoViol R τ (evalEx R cfg e b).2.2) :
     (evalEx allSaved cfg e a).1 = (evalEx R cfg e b).1 ∧
     (evalEx allSaved cfg e a).2.2 = (evalEx R cfg e b).2.2 ∧
@@ -118,12 +120,16 @@ theorem evalEx_lockstep (R : Nat → Bool) (cfg : Cfg) (e : Ex) (τ : Nat → Bo
       simp only [hc, hi, ↓reduceIte, Bool.false_eq_true, suspendK_all] at hn ⊢
       have hn1 := hn.append.1
       have hv0 := agree_reads ha e.vars hn1
-      have htau : tauAfter τ (exReads e ++ (List.replicate (cfg.nsusp b.t) (Ev.susp :: exReads e)).flatten) =
-          fun v => τ v || decide (0 < cfg.nsusp b.t) := by
+      have hk0 : cfg.nsusp e a.w (e.vars.map a.store) = cfg.nsusp e b.w (e.vars.map b.store) := by
+        rw [hv0, ht]
+      rw [hk0]
+      generalize cfg.nsusp e b.w (e.vars.map b.store) = k at hn ⊢
+      have htau : tauAfter τ (exReads e ++ (List.replicate k (Ev.susp :: exReads e)).flatten) =
+          fun v => τ v || decide (0 < k) := by
         funext v
         simp only [tauAfter, taintAfter_append, exReads, taint_reads, taint_recall]
-      have hvals : e.vars.map a.store = e.vars.map (suspendK R (cfg.nsusp b.t) b.store) := by
-        by_cases hk : cfg.nsusp b.t = 0
+      have hvals : e.vars.map a.store = e.vars.map (suspendK R k b.store) := by
+        by_cases hk : k = 0
         · simp only [suspendK, hk, ↓reduceIte]; exact hv0
         · apply List.map_congr_left
           intro v hv
@@ -146,16 +152,17 @@ theorem evalEx_lockstep (R : Nat → Bool) (cfg : Cfg) (e : Ex) (τ : Nat → Bo
       simp only [hc, hi, ↓reduceIte, suspendK_all] at hn ⊢
       have hn1 := hn.append.1
       have hv0 := agree_reads ha e.vars hn1
-      have htau : tauAfter τ (exReads e ++ List.replicate (cfg.nsusp b.t) Ev.susp) =
-          fun v => τ v || decide (0 < cfg.nsusp b.t) := by
+      rw [hv0, ht, hl]
+      generalize cfg.nsusp e b.w (e.vars.map b.store) = k at hn ⊢
+      have htau : tauAfter τ (exReads e ++ List.replicate k Ev.susp) =
+          fun v => τ v || decide (0 < k) := by
         funext v
         simp only [tauAfter, taintAfter_append, exReads, taint_reads, taint_susps]
-      rw [hv0, ht, hl]
       refine ⟨rfl, rfl, rfl, rfl, ?_⟩
       rw [htau]
       exact agree_susp ha _
 
-theorem evalExOpt_lockstep (R : Nat → Bool) (cfg : Cfg) (oe : Option Ex) (τ : Nat → Bool) (a b : RState)
+theorem evalExOpt_lockstep (R : Nat → Bool) (cfg : Cfg W) (oe : Option Ex) (τ : Nat → Bool) (a b : RState W)
     (hs : SimSt R τ a b) (hn : NoViol R τ (evalExOpt R cfg oe b).2) :
     (evalExOpt allSaved cfg oe a).2 = (evalExOpt R cfg oe b).2 ∧
     SimSt R (tauAfter τ (evalExOpt R cfg oe b).2) (evalExOpt allSaved cfg oe a).1 (evalExOpt R cfg oe b).1 := by
@@ -176,8 +183,8 @@ theorem agree_set {R τ : Nat → Bool} {s1 s2 : Store} (ha : Agree R τ s1 s2) 
     have hiv : ¬ i = v := fun h => hvi h.symm
     simpa [tauAfter, taintAfter, Ev.taint, hiv] using hv
 
-theorem evalAssign_lockstep (R : Nat → Bool) (cfg : Cfg) (op : AOp) (lhs : Lhs) (rhs : Ex)
-    (τ : Nat → Bool) (a b : RState) (hs : SimSt R τ a b)
+theorem evalAssign_lockstep (R : Nat → Bool) (cfg : Cfg W) (op : AOp) (lhs : Lhs) (rhs : Ex)
+    (τ : Nat → Bool) (a b : RState W) (hs : SimSt R τ a b)
     (hn : NoViol R τ (evalAssign R cfg op lhs rhs b).2) :
     (evalAssign allSaved cfg op lhs rhs a).2 = (evalAssign R cfg op lhs rhs b).2 ∧
     SimSt R (tauAfter τ (evalAssign R cfg op lhs rhs b).2)
@@ -185,30 +192,30 @@ theorem evalAssign_lockstep (R : Nat → Bool) (cfg : Cfg) (op : AOp) (lhs : Lhs
   unfold evalAssign at hn ⊢
   -- the RHS, as a triple
   have hr : ∀ (hn1 : NoViol R τ (if op = AOp.eqQuestion then
-          ((cfg.val rhs b.t (rhs.vars.map b.store), (⟨b.store, b.t + 1, b.log ++ [cfg.val rhs b.t (rhs.vars.map b.store)]⟩ : RState), exReads rhs) : Nat × RState × List Ev)
+          ((cfg.val rhs b.w (rhs.vars.map b.store), (⟨b.store, cfg.next rhs b.w (rhs.vars.map b.store), b.log ++ [cfg.val rhs b.w (rhs.vars.map b.store)]⟩ : RState W), exReads rhs) : Nat × RState W × List Ev)
         else evalEx R cfg rhs b).2.2),
-      let r1a : Nat × RState × List Ev := if op = AOp.eqQuestion then
-          (cfg.val rhs a.t (rhs.vars.map a.store), ⟨a.store, a.t + 1, a.log ++ [cfg.val rhs a.t (rhs.vars.map a.store)]⟩, exReads rhs)
+      let r1a : Nat × RState W × List Ev := if op = AOp.eqQuestion then
+          (cfg.val rhs a.w (rhs.vars.map a.store), ⟨a.store, cfg.next rhs a.w (rhs.vars.map a.store), a.log ++ [cfg.val rhs a.w (rhs.vars.map a.store)]⟩, exReads rhs)
         else evalEx allSaved cfg rhs a
-      let r1b : Nat × RState × List Ev := if op = AOp.eqQuestion then
-          (cfg.val rhs b.t (rhs.vars.map b.store), ⟨b.store, b.t + 1, b.log ++ [cfg.val rhs b.t (rhs.vars.map b.store)]⟩, exReads rhs)
+      let r1b : Nat × RState W × List Ev := if op = AOp.eqQuestion then
+          (cfg.val rhs b.w (rhs.vars.map b.store), ⟨b.store, cfg.next rhs b.w (rhs.vars.map b.store), b.log ++ [cfg.val rhs b.w (rhs.vars.map b.store)]⟩, exReads rhs)
         else evalEx R cfg rhs b
       r1a.1 = r1b.1 ∧ r1a.2.2 = r1b.2.2 ∧ SimSt R (tauAfter τ r1b.2.2) r1a.2.1 r1b.2.1 := by
     intro hn1
     by_cases hq : op = AOp.eqQuestion
     · simp only [hq, ↓reduceIte] at hn1 ⊢
       have hv := agree_reads hs.agree rhs.vars hn1
-      rw [hv, hs.t, hs.log]
+      rw [hv, hs.w, hs.log]
       refine ⟨rfl, trivial, rfl, rfl, ?_⟩
       simp only [exReads, tauAfter_reads]
       exact hs.agree
     · simp only [hq, ↓reduceIte] at hn1 ⊢
       exact evalEx_lockstep R cfg rhs τ a b hs hn1
   generalize hr1a : (if op = AOp.eqQuestion then
-          ((cfg.val rhs a.t (rhs.vars.map a.store), (⟨a.store, a.t + 1, a.log ++ [cfg.val rhs a.t (rhs.vars.map a.store)]⟩ : RState), exReads rhs) : Nat × RState × List Ev)
+          ((cfg.val rhs a.w (rhs.vars.map a.store), (⟨a.store, cfg.next rhs a.w (rhs.vars.map a.store), a.log ++ [cfg.val rhs a.w (rhs.vars.map a.store)]⟩ : RState W), exReads rhs) : Nat × RState W × List Ev)
         else evalEx allSaved cfg rhs a) = r1a at hr ⊢
   generalize hr1b : (if op = AOp.eqQuestion then
-          ((cfg.val rhs b.t (rhs.vars.map b.store), (⟨b.store, b.t + 1, b.log ++ [cfg.val rhs b.t (rhs.vars.map b.store)]⟩ : RState), exReads rhs) : Nat × RState × List Ev)
+          ((cfg.val rhs b.w (rhs.vars.map b.store), (⟨b.store, cfg.next rhs b.w (rhs.vars.map b.store), b.log ++ [cfg.val rhs b.w (rhs.vars.map b.store)]⟩ : RState W), exReads rhs) : Nat × RState W × List Ev)
         else evalEx R cfg rhs b) = r1b at hr hn ⊢
   cases lhs with
   | none =>
@@ -235,7 +242,7 @@ theorem evalAssign_lockstep (R : Nat → Bool) (cfg : Cfg) (op : AOp) (lhs : Lhs
           have := hn2.append.1 i hR
           simpa [viol, Ev.stale] using this
         · exact Or.inl rfl
-      refine ⟨by rw [h2], ⟨h3.t, h3.log, ?_⟩⟩
+      refine ⟨by rw [h2], ⟨h3.w, h3.log, ?_⟩⟩
       simp only
       rw [hi, h1, tauAfter_append, tauAfter_append]
       have e1 : tauAfter (tauAfter τ r1b.2.2) [Ev.rd i] = tauAfter τ r1b.2.2 := by
@@ -244,12 +251,12 @@ theorem evalAssign_lockstep (R : Nat → Bool) (cfg : Cfg) (op : AOp) (lhs : Lhs
       exact agree_set h3.agree i _
     · simp only [hop, ↓reduceIte, List.nil_append] at hn ⊢
       obtain ⟨h1, h2, h3⟩ := hr hn.append.1
-      refine ⟨by rw [h2], ⟨h3.t, h3.log, ?_⟩⟩
+      refine ⟨by rw [h2], ⟨h3.w, h3.log, ?_⟩⟩
       simp only
       rw [h1, tauAfter_append]
       exact agree_set h3.agree i _
 
-structure Sim (R τ : Nat → Bool) (r1 r2 : Res) : Prop where
+structure Sim (R τ : Nat → Bool) (r1 r2 : Res W) : Prop where
   out : r1.out = r2.out
   evs : r1.evs = r2.evs
   st : SimSt R τ r1.st r2.st
@@ -263,7 +270,7 @@ theorem agree_reset {R τ : Nat → Bool} {s1 s2 : Store} (ha : Agree R τ s1 s2
   exact ha v (Or.inl hR)
 
 /-- The run that saves only `R`, if it never reads a non-saved variable stale, is the ideal run. -/
-theorem run_lockstep (R : Nat → Bool) (cfg : Cfg) : ∀ (f : Nat) (task : Task) (τ : Nat → Bool) (a b : RState),
+theorem run_lockstep (R : Nat → Bool) (cfg : Cfg W) : ∀ (f : Nat) (task : Task) (τ : Nat → Bool) (a b : RState W),
     SimSt R τ a b → NoViol R τ (run R cfg f task b).evs →
     Sim R (tauAfter τ (run R cfg f task b).evs) (run allSaved cfg f task a) (run R cfg f task b)
   | 0, task, τ, a, b, hs, _ => by
@@ -313,13 +320,13 @@ theorem run_lockstep (R : Nat → Bool) (cfg : Cfg) : ∀ (f : Nat) (task : Task
         exact ⟨rfl, h1.2.1, h1.2.2⟩
       · simp only [run, ↓reduceIte] at hn ⊢
         have h1 := evalEx_lockstep R cfg e τ a b hs hn.append.1
-        refine ⟨rfl, by rw [h1.2.1], ⟨h1.2.2.t, h1.2.2.log, ?_⟩⟩
+        refine ⟨rfl, by rw [h1.2.1], ⟨h1.2.2.w, h1.2.2.log, ?_⟩⟩
         simp only [resetStore_all]
         rw [tauAfter_append]
         exact agree_reset h1.2.2.agree
     | var i =>
       simp only [run]
-      exact ⟨rfl, rfl, ⟨hs.t, hs.log, agree_set hs.agree i 0⟩⟩
+      exact ⟨rfl, rfl, ⟨hs.w, hs.log, agree_set hs.agree i 0⟩⟩
     | «while» wt c body =>
       simp only [run] at hn ⊢
       exact run_lockstep R cfg f (Task.loop wt c body) τ a b hs hn
